@@ -3,6 +3,7 @@ from __future__ import annotations
 
 REAL_TX = ["ramses_tx.protocol.PortProtocol/_DeviceIdFilterMixin", "ramses_tx.protocol_fsm.ProtocolContext + states",
            "ramses_tx.transport.PortTransport (+ serial_asyncio.SerialTransport, limiter, leaker, sync-avoidance)",
+           "ramses_tx.transport.MqttTransport (token bucket, status topic, JSON rx) in the MQTT variant of the qos scenarios",
            "ramses_tx.command.Command", "ramses_tx.packet.Packet / frame.Frame", "ramses_tx.message.Message + parsers"]
 STUB_RF = ["simrf.rf.FakeSerial (Serial duck type)", "simrf.rf.Hub firmware model (evofw3/HGI80 echo, addr0 substitution)",
            "scripted responder/adversary (simrf.engines.*)", "simrf.vloop.VLoop (virtual-time asyncio loop)",
@@ -19,7 +20,8 @@ CHECKS: dict[str, dict] = {
                 "read/write errors, disconnects. distinct = distinct abstract traces (sequence of echo/reply "
                 "decision classes and caller outcomes); non-trivial = at least one fault fired while a send was in flight",
         "real": REAL_TX, "stub": STUB_RF,
-        "assumptions": ["exploration by seeded sampling, not exhaustive", "serial transport only (MQTT send path in C11)",
+        "assumptions": ["exploration by seeded sampling, not exhaustive", "80 % serial dongle (evofw3 / HGI80), 20 % a ramses_esp gateway behind an MQTT broker (real MqttTransport, fake paho client: "
+                        "publish = transmission, echo and replies arrive as JSON on <topic>/rx, offline/online status = pause/resume)",
                         "firmware/responder are models written from the protocol comments"],
     },
     "C08": {
@@ -343,7 +345,7 @@ MANIFEST_TEXT = {
                     "evidence, not proof.",
             "design_ref": "DESIGN.md 7/C07", "technique": _TECH,
             "note": "Trusted: VLoop's fidelity to asyncio's scheduling contract (FIFO call_soon, deadline order), the firmware "
-                    "model; serial transport only."},
+                    "model; serial and MQTT transports."},
     "C08": {"text": "History oracles over the bytes written to the fake serial port and caller verdicts for the same seeded "
                     "plans plus queue bursts: retry budget, back-off, nothing after verdict, one in flight, priority/FIFO.",
             "design_ref": "DESIGN.md 7/C08", "technique": _TECH,
